@@ -536,6 +536,64 @@ PROPS["C06"] = {
 }
 
 
+def api_oracle(pid, res, driver):
+    """Independent statement of the supported domain (property text) in Python."""
+    findings = []
+    data = res.stream_data.get("API")
+    if data:
+        for c, o in zip(data["cases"], data["impl"].get("debug", [])):
+            t = c.split(" ")
+            verdict = (o.split(" ") + ["?", "?"])[1]
+            k = t[2]
+            a = [int(x) for x in t[3:]]
+            supported, neutral = None, False
+            if k == "SI":
+                supported = a[0] <= 96000 and 1 <= a[1] <= 8 and a[2] in (8, 12, 16, 20, 24)
+                neutral = a[0] <= 96000 and 1 <= a[1] <= 8 and a[2] in (9, 13, 17, 21, 25)
+            elif k == "FB":
+                supported = 1 <= a[0] <= 8 and 32 <= a[1] <= 32767
+            elif k == "FI":
+                supported = a[2] <= a[0] * a[1]
+            elif k == "FL":
+                ch, cap, bps, ln, nb = a
+                supported = 1 <= nb <= 4 and ln % nb == 0 and ln // nb <= ch * cap and (ln == 0 or nb == (bps + 7) // 8)
+            elif k == "FR":
+                supported = a[0] < 2 ** 31 and a[1] == 0
+            elif k == "ST":
+                mt, rate, ch, bps, bs, n, bad = a
+                inr = bad < 0 or n == 0
+                supported = rate <= 96000 and 1 <= ch <= 8 and bps in (8, 12, 16, 20, 24) and 32 <= bs <= 32767 and inr
+                neutral = bps in (9, 13, 17, 21, 25)
+            if verdict in ("panic", "hang", "no-output"):
+                findings.append({"case": c, "impl": o[:100], "why": "entry point ended in %s" % verdict})
+            elif not neutral and supported is not None:
+                if supported and verdict != "ok":
+                    findings.append({"case": c, "impl": o[:100], "why": "supported arguments were rejected"})
+                if not supported and verdict != "err":
+                    findings.append({"case": c, "impl": o[:100], "why": "arguments outside the supported domain were accepted"})
+    return findings
+
+
+API_STREAM = {"name": "API", "quick": 5000, "thorough": 100000, "profiles": ["debug", "release"],
+              "nontrivial": lambda c, o: o.endswith(" err") or " err " in o}
+API_RULE = ("API: boundary and wrap-around grid for every argument of StreamInfo::new, FrameBuf::with_size, fill_interleaved, "
+            "(FrameBuf, Context)::fill_le_bytes, encode_fixed_size_frame and encode_with_fixed_block_size in both modes: 0, min-1, min, "
+            "max, max+1, 2^8+k, 2^16+k, 2^32+k, usize::MAX for rate / channels / width / block size / frame number; fills of exactly, one "
+            "more than and a channel more than the capacity; byte widths 0..6 against the declared width; lengths off by one; an "
+            "out-of-range sample at a random position. Verdict ok / err / panic / hang (15 s). Non-trivial = a rejection.")
+
+PROPS["C17"] = {
+    "coq": "theories/Props/C17.v",
+    "theorems": ["C17_streaminfo_new", "C17_framebuf_with_size", "C17_fill_interleaved", "C17_fill_le_bytes_errors",
+                 "C17_frame_entry", "C17_stream_entry", "C17_never_panics"],
+    "streams": [API_STREAM], "rule": API_RULE,
+    "oracle": api_oracle,
+    "assumptions": ["the model lists the checks each entry point performs before working (tied by the API stream); widths 9/13/17/21/25 are neutral",
+                    "a frame buffer whose channel count disagrees with the StreamInfo passed to encode_fixed_size_frame, and an empty frame "
+                    "buffer, are outside the property's list and outside the grid"],
+}
+
+
 def check_coq(pid, spec, res):
     """Build the proofs; returns True when the property's theorems are all checked."""
     closure = fv.dep_closure(spec["coq"])
